@@ -22,6 +22,7 @@ type prCtx struct {
 	unknown   int
 	valueMode bool // the function returns a value, not text
 	alias     string // body translators: the local that aliases the object being filled
+	ext       bool   // the forms of internal/natsort: while loops, parallel assignment, s[a:b] (off for the reviewed tables)
 }
 
 func (c *prCtx) src(n ast.Node) string { return strings.Join(strings.Fields(exprString(c.tp.fset, n)), " ") }
@@ -181,6 +182,9 @@ func (c *prCtx) expr(e ast.Expr) string {
 		if e.Low != nil && e.High == nil && !e.Slice3 {
 			return fmt.Sprintf("(ESliceFrom %s %s)", c.expr(e.X), c.expr(e.Low))
 		}
+		if c.ext && e.Low != nil && e.High != nil && !e.Slice3 {
+			return fmt.Sprintf("(ESlice %s %s %s)", c.expr(e.X), c.expr(e.Low), c.expr(e.High))
+		}
 	}
 	return fmt.Sprintf("(EOther %s)", coqString(c.src(e)))
 }
@@ -267,7 +271,26 @@ func (c *prCtx) names(es []ast.Expr) string {
 	return coqStrings(ns)
 }
 
+// parallel translates a, b := x, y (or =): Go evaluates every operand on the right before it assigns,
+// which is the binding of a tuple.
+func (c *prCtx) parallel(st *ast.AssignStmt) (names, rhs string, ok bool) {
+	if !c.ext || len(st.Rhs) < 2 || len(st.Rhs) != len(st.Lhs) || (st.Tok != token.DEFINE && st.Tok != token.ASSIGN) {
+		return "", "", false
+	}
+	var rs []string
+	for i, l := range st.Lhs {
+		if _, isId := l.(*ast.Ident); !isId {
+			return "", "", false
+		}
+		rs = append(rs, c.expr(st.Rhs[i]))
+	}
+	return c.names(st.Lhs), "(ETuple [" + strings.Join(rs, "; ") + "])", true
+}
+
 func (c *prCtx) assign(st *ast.AssignStmt) (string, bool) {
+	if names, rhs, ok := c.parallel(st); ok {
+		return fmt.Sprintf("SLet %v %s %s", st.Tok == token.DEFINE, names, rhs), true
+	}
 	if len(st.Rhs) != 1 {
 		return "", false
 	}
@@ -481,10 +504,19 @@ func (c *prCtx) stmt(st ast.Stmt) []string {
 		init := "None"
 		if st.Init != nil {
 			as, ok := st.Init.(*ast.AssignStmt)
-			if !ok || len(as.Rhs) != 1 {
-				break
+			if names, rhs, par := func() (string, string, bool) {
+				if !ok || as.Tok != token.DEFINE {
+					return "", "", false
+				}
+				return c.parallel(as)
+			}(); par {
+				init = fmt.Sprintf("(Some (%s, %s))", names, rhs)
+			} else {
+				if !ok || len(as.Rhs) != 1 {
+					break
+				}
+				init = fmt.Sprintf("(Some (%s, %s))", c.names(as.Lhs), c.expr(as.Rhs[0]))
 			}
-			init = fmt.Sprintf("(Some (%s, %s))", c.names(as.Lhs), c.expr(as.Rhs[0]))
 		}
 		el := "[]"
 		if st.Else != nil {
@@ -496,6 +528,14 @@ func (c *prCtx) stmt(st ast.Stmt) []string {
 		}
 		return []string{fmt.Sprintf("SIf %s %s %s %s", init, c.expr(st.Cond), c.block(st.Body.List), el)}
 	case *ast.ForStmt:
+		if c.ext && st.Init == nil && st.Cond != nil {
+			// for cond { body }  and  for ; cond; post { body }
+			post := "[]"
+			if st.Post != nil {
+				post = "[" + strings.Join(c.stmt(st.Post), "; ") + "]"
+			}
+			return []string{fmt.Sprintf("SWhile %s %s %s", c.expr(st.Cond), post, c.block(st.Body.List))}
+		}
 		if st.Init != nil && st.Cond != nil && st.Post != nil {
 			ini, ok1 := st.Init.(*ast.AssignStmt)
 			post, ok2 := st.Post.(*ast.AssignStmt)
@@ -634,7 +674,8 @@ func genPrinters(repo, out string) {
 | ESliceFrom (e lo : gexpr)                     (* e[lo:] *)
 | EComposite (ty : string) (fields : list (string * gexpr))   (* T{f: e, ...} and &T{...} *)
 | ETuple (es : list gexpr)                      (* the results of a return with several values *)
-| EOther (src : string).
+| EOther (src : string)
+| ESlice (e lo hi : gexpr).                     (* e[lo:hi] *)
 Inductive gstmt :=
 | SLit (s : string)
 | SArg (verb : string) (e : gexpr)
@@ -654,7 +695,8 @@ Inductive gstmt :=
 | STypeSwitch (x : string) (e : gexpr) (cases : list (list string * list gstmt)) (default : list gstmt)
 | SStop
 | SPanic
-| SUnknown (s : string).
+| SUnknown (s : string)
+| SWhile (cond : gexpr) (post : list gstmt) (body : list gstmt).   (* for cond { body } and for ; cond; post { body } *)
 (* p_type is package.Type for a method, empty for a package-level helper *)
 Record printer := { p_pkg : string; p_type : string; p_method : string; p_recv : string; p_body : list gstmt }.`)
 	type item struct{ pkg, typ, method, recv, body string }
@@ -948,4 +990,44 @@ Record printer := { p_pkg : string; p_type : string; p_method : string; p_recv :
 		fmt.Fprintf(f, "  {| p_pkg := %s; p_type := %s; p_method := %s; p_recv := %s; p_body := %s |}%s\n", coqString(it.pkg), coqString(it.typ), coqString(it.method), coqString(it.recv), it.body, sep)
 	}
 	fmt.Fprintln(f, "].")
+	// internal/natsort: the package-level functions that return a value (Less, isdigit), in a table of their own
+	// (Proofs/NatsortRefinement.v runs them against Model/Natsort.v).  An exported function is entered under its
+	// qualified name, as a call from another package reaches it; an unexported one under its bare name.
+	{
+		tp := loadTyped(repo, "internal/natsort", "github.com/llir/llvm/internal/natsort")
+		var nat []item
+		unknown := 0
+		for _, file := range tp.files {
+			for _, decl := range file.Decls {
+				fd, ok := decl.(*ast.FuncDecl)
+				if !ok || fd.Body == nil || fd.Recv != nil || fd.Type.Results == nil || len(fd.Type.Results.List) != 1 {
+					continue
+				}
+				c := &prCtx{tp: tp, valueMode: true, ext: true}
+				var ps []string
+				for _, p := range fd.Type.Params.List {
+					for _, nm := range p.Names {
+						ps = append(ps, nm.Name)
+					}
+				}
+				name := fd.Name.Name
+				if ast.IsExported(name) {
+					name = "natsort." + name
+				}
+				nat = append(nat, item{"natsort", "", name, strings.Join(ps, ","), c.block(fd.Body.List)})
+				unknown += c.unknown
+			}
+		}
+		fmt.Printf("printers internal/natsort: %d bodies, %d unknown statements\n", len(nat), unknown)
+		sort.Slice(nat, func(i, j int) bool { return nat[i].method < nat[j].method })
+		fmt.Fprintln(f, "Definition natsort_bodies : list printer := [")
+		for i, it := range nat {
+			sep := ";"
+			if i == len(nat)-1 {
+				sep = ""
+			}
+			fmt.Fprintf(f, "  {| p_pkg := %s; p_type := %s; p_method := %s; p_recv := %s; p_body := %s |}%s\n", coqString(it.pkg), coqString(it.typ), coqString(it.method), coqString(it.recv), it.body, sep)
+		}
+		fmt.Fprintln(f, "].")
+	}
 }
